@@ -2,7 +2,7 @@
 """Regenerates MANIFEST.json from props.json (the per-property registry used by ./check)."""
 import json, os
 here = os.path.dirname(os.path.abspath(__file__))
-props = json.load(open(os.path.join(here, "props.json")))
+props = {fn[:-5]: json.load(open(os.path.join(here, "props.d", fn))) for fn in sorted(os.listdir(os.path.join(here, "props.d"))) if fn.endswith(".json")}
 all_ids = [json.loads(l)["id"] for l in open(os.path.join(here, "properties.jsonl")) if l.strip()]
 checks = []
 for pid in all_ids:
